@@ -68,6 +68,20 @@ Section Flush.
     | [] => []
     end.
 
+  (* channelWriterHandleBatch ITEM BY ITEM (pkg/output/channel_writer.go): each record, and each print/dump/comment
+     string, is written into the bufio.Writer, and `if writerOptions.FlushOnEveryRecord { Flush() }` follows EVERY item
+     of either kind.  [after i] = the flush decision for item i: the code's rule is [fun _ => true]; the rule is a
+     parameter so that other rules (e.g. flush after records only) can be compared with it (Flush.v).
+     The merged step of fwriter_succs is this fold with the code's rule: Flush.fwriter_succs_per_item. *)
+  Fixpoint write_items (fflush : bool) (after : item -> bool) (l : list item) (fl buf : list item)
+    : list item * list item :=
+    match l with
+    | [] => (fl, buf)
+    | i :: t => if fflush && after i then write_items fflush after t (fl ++ buf ++ [i]) []
+                else write_items fflush after t fl (buf ++ [i])
+    end.
+  Definition flush_every_item : item -> bool := fun _ => true.
+
   (* bufio.Writer flushing by itself (buffer full): over-approximated as possible whenever the buffer is non-empty *)
   Definition spill_succs (s : fstate) : list fstate :=
     match buffered s with
@@ -195,6 +209,9 @@ Definition z_head (k : Z) : sverb rec zst :=                                    
   mkSV rec zst (fun x r => if fst x <? k then ((fst x + 1, snd x), [r]) else (x, [])) (fun _ => []).
 Definition z_filter_odd : sverb rec zst := v_filter rec zst (fun _ r => Z.odd (fst r)) (fun x _ => x).        (* filter '$i % 2 == 1' *)
 Definition z_tac : sverb rec zst := mkSV rec zst (fun x r => ((fst x, r :: snd x), [])) (fun x => snd x).     (* tac *)
+(* print text is an item of its own; on the wire it is the line p<i>, encoded here as the pair (i, -1) *)
+Definition z_print_q : sverb rec zst := mkSV rec zst (fun x r => (x, [(fst r, -1)])) (fun _ => []).          (* put -q 'print "p".$i' *)
+Definition z_print : sverb rec zst := mkSV rec zst (fun x r => (x, [(fst r, -1); r])) (fun _ => []).         (* put 'print "p".$i' *)
 
 Definition zchain (cid : Z) : list (sverb rec zst * zst) :=
   match cid with
@@ -206,6 +223,8 @@ Definition zchain (cid : Z) : list (sverb rec zst * zst) :=
   | 5 => [(z_put_nr, z0); (z_filter_odd, z0)]   (* NR is the input record number carried in the record context: put comes first *)
   | 6 => [(z_tac, z0)]
   | 7 => [(z_put_nr, z0); (z_tac, z0); (z_head 3, z0)]
+  | 8 => [(z_print_q, z0)]                       (* output is text only: the flush must follow print strings too *)
+  | 9 => [(z_print, z0); (z_head 3, z0)]
   | _ => [(z_cat, z0)]
   end.
 
